@@ -2237,6 +2237,14 @@ impl OutstationSession {
     }
 
     fn classify<'a>(&self, info: FragmentInfo, request: Request<'a>) -> FragmentType<'a> {
+        // a confirmation is never sent by broadcast: such a fragment must not be mistaken
+        // for the confirmation of the response this outstation is waiting on
+        if request.header.function == FunctionCode::Confirm {
+            if let Some(mode) = info.broadcast {
+                return FragmentType::Broadcast(mode);
+            }
+        }
+
         if request.header.function == FunctionCode::Confirm {
             return if request.header.control.uns {
                 FragmentType::UnsolicitedConfirm(request.header.control.seq)
